@@ -125,6 +125,26 @@ theorem iteration_units_nofloor (a b : K) (ha : 0 < a) (hb : 0 < b) (lb ub : Vec
       C10.bfgsChain_theta_units a b (thetaOf X G) hane hbne, smul_mulVec, dotProduct_smul, smul_eq_mul]
     exact mul_nonneg (le_of_lt (div_pos ha (mul_pos hb hb))) (le_of_lt (hspd.2 dd hne))
 
+/-- **C17 at the level of the kernels (exact arithmetic)**: multiplying the objective by any `a > 0` — gradient and stored gradients
+multiplied by `a`, as a gradient scaler returning `a` does — leaves the point the iteration aims at unchanged -/
+theorem iteration_objective_scale (a : K) (ha : 0 < a) (lb ub : Vec K) (x g : Vec K) (X G : List (Vec K))
+    (hX : X.length > 1) (hXG : X.length = G.length) (hn : 0 < x.length)
+    (hS : ∀ j, j < (diffs X).length → ((diffs X).getD j []).length = x.length)
+    (hY : ∀ j, j < (diffs X).length → ((diffs G).getD j []).length = x.length)
+    (hcurv : ∀ j, j < (diffs X).length → vec x.length ((diffs X).getD j []) ≠ 0 ∧
+      0 < vec x.length ((diffs X).getD j []) ⬝ᵥ vec x.length ((diffs G).getD j []))
+    (hθ : 0 < thetaOf X G) (box : InBoxF lb ub x) :
+    xbarModel lb ub 0 x (smul a g) (some (X, G.map (smul a))) = xbarModel lb ub 0 x g (some (X, G)) := by
+  have h := iteration_units_nofloor a 1 ha one_pos lb ub x g X G hX hXG hn hS hY hcurv hθ box
+  have e1 : ∀ v : Vec K, smul 1 v = v := FullNewton.smul_one'
+  have e2 : X.map (smul (1 : K)) = X := by
+    conv_rhs => rw [← List.map_id X]
+    apply List.map_congr_left
+    intro v _
+    exact e1 v
+  rw [e1, e1, e1, e2, div_one, e1] at h
+  exact h
+
 /-! ### Non-vacuity (ℚ): the instance of C01Curv (`f = ½|x|²` on `[−2, 2]²`, history `(1,1) → (½,½)`, current point `(½,½)`), objective
 multiplied by 3, variables by 5 -/
 section nonvacuous
